@@ -1,6 +1,6 @@
 (* Properties/C16.v — Properties: flat dotted keys and trees correspond exactly and deterministically. *)
 From Coq Require Import List String Bool ZArith Arith Permutation.
-From YT Require Import Base.Str Base.KV Base.Sort Model.Doc Model.Dom Model.Builder Model.Props Proofs.PropsProofs Proofs.FromPropsProofs.
+From YT Require Import Base.Str Base.KV Base.Sort Model.Doc Model.Dom Model.Builder Model.Props Proofs.PropsProofs Proofs.FromPropsProofs Proofs.FromPropsExactProofs Model.Path.
 Import ListNotations.
 Local Open Scope list_scope.
 
@@ -56,8 +56,24 @@ Theorem C16_from_properties_any_order : forall kv k v,
 Proof. exact from_properties_ord_pairs. Qed.
 Print Assumptions C16_from_properties_any_order.
 
-(* Not theorems (decided by the correspondence on every run): exactness for FromProperties (no
-   other leaves), and the text round trip (magiconair parsing is external). *)
+(* ... and the built document has NO OTHER leaves (for every key set, conflicting or not): a write
+   along member steps never pads, so every flattened entry is a pair of the flat map. *)
+Theorem C16_from_properties_exact : forall kv p w,
+  Forall (fun e => key_ok (fst e)) kv -> Forall (fun e => exists a, snd e = Leaf a) kv ->
+  In (p, w) (flatten (from_properties kv)) -> In (p, Leaf w) kv.
+Proof. exact from_properties_flatten_exact. Qed.
+Print Assumptions C16_from_properties_exact.
+
+(* Both halves: for path-safe keys none of which is a dotted prefix of another, the flattened
+   leaves of FromProperties(kv) are exactly the pairs of kv. *)
+Theorem C16_from_properties_flatten : forall kv p w,
+  Forall (fun e => key_ok (fst e)) kv -> Forall (fun e => exists a, snd e = Leaf a) kv -> conflict_free kv ->
+  (In (p, w) (flatten (from_properties kv)) <-> In (p, Leaf w) kv).
+Proof. exact from_properties_flatten_iff. Qed.
+Print Assumptions C16_from_properties_flatten.
+
+(* Not a theorem (decided by the correspondence on every run): the text round trip — magiconair's
+   parsing and printing of properties text is external to the model. *)
 
 Example C16_ex :
   let kv := [("a.b"%string, Leaf (SStr "1")); ("a.c.d"%string, Leaf (SStr "2")); ("x"%string, Leaf (SStr "3"))] in
